@@ -46,6 +46,7 @@ DIRECTED = {
                               "nsr 0 1 1 0 0 0 1 0 0", "nsolve 0", "caddcal 0 cal0 0", "cfree 0"],
     "D39_list_index_overflow": ["pset 0 [2147483647]=x"],
     "D40_resize_overflow": ["dalloc 0 1", "dresize 0 0 65536 65536 0"],
+    "D63_new_zero_frequencies": ["ccreate 0 1", "nalloc 1 0 4 2 2 0", "nsetfv 1 0", "nthru 1 2 2 0 0 1 2", "nmerr 1 2 0", "nsr 1 2 2 0 0 2 1 -1 0", "nsolve 1"],
     "vla_nonpositive_s_dims": ["ccreate 0 1", "nalloc 0 0 0 2 2 1", "nsetfv 0 0", "nmm 0 2 2 0 0 0 0 0"],
     "vla_negative_s_dims": ["ccreate 0 1", "nalloc 0 0 0 2 2 1", "nsetfv 0 0", "nmm 0 2 2 0 0 -1 1 0"],
     "teardown_deleted_held": ["ccreate 0 1", "cscalar 0 0.5 0", "cscalar 0 0.25 0", "cpdel 0 3", "cunknown 0 4", "cpdel 0 4", "cfree 0"],
